@@ -5,7 +5,8 @@ Decided statically (E2 decision tables extracted by abstract interpretation of t
   R-C13-algebra        table algebra: trichotomy, <= = < or ==, >= = > or ==, gt = not le, lt = not ge
   R-C13-kernel         compare_values: same-type arms only, operand order, cross-type => NotComparable
   R-C13-eq-routes      compare_eq: which mechanism decides each of the 12x12 variant pairs; map equality is order-insensitive; no evaluator
-                       function keys a hash collection by document values (Hash disagrees with compare_eq) outside a reviewed table
+                       function keys a hash collection by document values (Hash disagrees with compare_eq) outside a reviewed table; the
+                       element-of-a-literal-list shorthand of the keys filter is guarded by len() == 1
   R-C13-ranges         is_within table over the inclusive bits; parse_range bracket -> bit, bound -> field
 """
 import re
